@@ -431,8 +431,9 @@ def run_pipeline(kqh, drv, hists, name, timeout=900):
     rc, out = sh("timeout %d %s -hist %s > %s" % (timeout, kqh, hp, op), timeout=timeout + 30)
     if rc != 0:
         return {"error": "harness rc=%d %s" % (rc, out[-1500:]), "obs": op}
-    # VERIF_KQ_CFG=fixed replays against the model with the three repair flags on (used to validate proposed patches)
-    cfgopt = "-cfg fixed " if os.environ.get("VERIF_KQ_CFG") == "fixed" else ""
+    # the model follows the repaired tree (cfg_repo); VERIF_KQ_CFG=before-fix compares against the behaviour before
+    # commits 833aa17 / c3f1f06 instead (only for experiments with old trees)
+    cfgopt = "-cfg before-fix " if os.environ.get("VERIF_KQ_CFG") == "before-fix" else ""
     rc, dout = sh("timeout %d %s %s%s" % (timeout, drv, cfgopt, op), timeout=timeout + 30)
     res = {"obs": op, "model": [], "env": [], "spec": [], "summary": "", "diverging": set(), "error": None}
     if rc != 0 and "SUMMARY" not in dout:
@@ -620,8 +621,10 @@ def features(steps):
     return sorted(f)
 
 
-CAUSES = ["fifo-added", "symlink-added", "fifo-entry", "dangling-symlink-entry", "symlink-entry",
-          "watched-dir-renamed", "watched-file-overwritten", "rename-then-recreate-in-burst", "entry-user-removed", "unclean-spelling"]
+# the last two are the ingredients of defects repaired in /repo (c3f1f06): they only decide the key when nothing else does
+CAUSES = ["symlink-added", "fifo-entry", "dangling-symlink-entry", "symlink-entry",
+          "watched-dir-renamed", "watched-file-overwritten", "rename-then-recreate-in-burst", "entry-user-removed",
+          "fifo-added", "unclean-spelling"]
 
 
 def spec_key(clause, detail, steps):
